@@ -80,7 +80,11 @@ struct B { 1: i32 read, 2: i32 write, 3: string string, 4: i32 deep_equal, 5: i3
 union BU { 1: i32 count_set_fields, 2: i32 read, 3: string string }
 exception BE { 1: string error, 2: string message, 3: i32 write }
 exception BF { 1: string error }
-service Svc { B read(1: B read, 2: BU r, 3: i32 _result) throws (1: BE err, 2: BF ctx) }
+service Svc {
+  B read(1: B read, 2: BU r, 3: i32 _result) throws (1: BE err, 2: BF ctx),
+  void put(1: i32 r, 2: i32 _result, 3: i32 p, 4: i32 err, 5: i32 ctx),
+  oneway void fire(1: i32 r, 2: i32 p),
+}
 `
 	// finding: InitDefault is emitted by the struct template under a fixed name that no table knows
 	fixedMember := `namespace go fixed.member
